@@ -287,7 +287,7 @@ def run(ctx):
     run_world(ctx, world, [("SimpleStrategy", {"replication_factor": 2}, False), ("SimpleStrategy", {"replication_factor": 3}, False),
                            ("NetworkTopologyStrategy", {"dc1": 2}, False)], rng, n_scenarios=12, keys_per_ks=4)
 
-    n_worlds = ctx.scale(700, 150000)
+    n_worlds = ctx.scale(700, 100000)
     for _ in range(n_worlds):
         world = R.random_world(rng)
         configs = R.random_configs(rng, world, 3)
@@ -297,7 +297,7 @@ def run(ctx):
         ctx.count("worlds")
     ctx.sample({"ring": [(str(t) if not isinstance(t, bytes) else t.hex(), "h%d" % o) for t, o in world.ring],
                 "hosts": dict(("h%d" % i, "%s/%s" % l) for i, l in enumerate(world.locs))})
-    ctx.floor_distinct = 3000 if ctx.quick else 1500000
+    ctx.floor_distinct = 3000 if ctx.quick else 1000000
     ctx.floor_counters = {"plans_judged": 15000, "plans_with_replica_prefix": 5000, "plans_with_ring_order_demanded": 500,
                           "shuffled_plans_with_2plus_prefix": 500, "plans_with_local_replica_not_up_in_child_plan": 500,
                           "plans_with_up_local_replica_outside_child_live_set": 200, "plans_with_remote_replicas": 500,
